@@ -645,6 +645,29 @@ COORD_TYPES = ["tuple", "list", "ndarray", "int-tuple", "int-ndarray", "np-scala
 
 def measure_checks(ctx, rng, station, given, date, lk, tols, w, measures, sfx, others=()):
     tol_pos, tol_el, tol_az, tol_rr = tols
+    # the state may be held in any element form (an orbit-determination state in keplerian or equinoctial elements, a
+    # tracking point in spherical coordinates): the measure is that of the same point of space-time.  Kept only when the form
+    # itself represents the state to 1e-12 (element forms of an Earth-fixed or unbound state do not), tolerances x 1000
+    # (1e-10 of the distances: the rounding of a form round trip), still 1e-6 of any wrong-form effect
+    given0 = given
+    form = rng.choice([None, None, "spherical", "cylindrical", "keplerian", "equinoctial", "keplerian_mean"])
+    if form is not None:
+        try:
+            c0 = probe.arr(given.copy(form="cartesian"))
+            alt = given.copy(form=form)
+            c1 = probe.arr(alt.copy(form="cartesian"))
+            rel = float(np.linalg.norm(c1[:3] - c0[:3]) / np.linalg.norm(c0[:3]) + np.linalg.norm(c1[3:] - c0[3:]) / max(np.linalg.norm(c0[3:]), 1e-3))
+            good = bool(np.all(np.isfinite(c1))) and rel <= 1e-12
+        except Exception:
+            good = False
+        if good:
+            given = alt
+            ctx.count("measure:state-held-in-form:" + form)
+            ctx.count("measure:state-held-in-another-form")
+            w = dict(w, state_form=form)
+            tol_pos, tol_el, tol_az, tol_rr = (1000 * t_ for t_ in tols)
+        else:
+            ctx.count("measure:form-variant-not-representable")
     shapes = [("one-way", 1), ("two-way", 2)]
     if others:
         # paths that do not come back to the emitting station: one leg per hop all the same
@@ -688,7 +711,7 @@ def measure_checks(ctx, rng, station, given, date, lk, tols, w, measures, sfx, o
             # an orbit determination do exactly that) gives what a brand-new state holding the new numbers gives
             if shape == "two-way" and cls_name in ("Range", "Doppler", "Azimut", "Elevation") and hasattr(given, "copy"):
                 try:
-                    edited = given.copy()
+                    edited = given0.copy()  # (edits are made on cartesian numbers: any six of them are a state)
                     M(path, date, float("nan")).from_orbit(edited)  # first measurement on this object
                     k_ = rng.randrange(6)
                     edited[k_] = float(edited[k_]) * (1 + 1e-3) + (1000.0 if k_ < 3 else 1.0)
